@@ -101,6 +101,9 @@ class Phase:
 
 class ManWorld:
     def __init__(self, r, regime="B", snapshot="default.snapshot", suspend="none", identifier=SPA_ID_STR, address="10.0.0.1", max_iter=12_000_000, wall_cap=600):
+        from . import contracts
+
+        contracts.install()
         self.r = r
         self.w = World(r, "B", max_iter=max_iter, wall_cap=wall_cap)
         self.regime = regime
